@@ -491,13 +491,25 @@ def gen_directed(rng):
     return cases
 
 
+def gen_reader_case(rng, maxlen):
+    """a history during which an observer reads representations inside the callbacks (oracle only: its reads fill
+    the caches at moments the model's operation granularity does not have)"""
+    c = gen_case(rng, maxlen)
+    return dict(ops=c["ops"], model=False, reader=True)
+
+
 def generate(rng, tier):
     n, maxlen = (170, 26) if tier == "quick" else (4000, 45)
-    for c in gen_directed(rng):
+    directed = gen_directed(rng)
+    for c in directed:
         yield c
+    for c in directed[::2]:
+        yield dict(ops=copy.deepcopy(c["ops"]), model=False, reader=True)
     for i in range(n):
         if i % 10 == 9:
             yield gen_oracle_case(rng, maxlen // 2)
+        elif i % 10 in (3, 7):
+            yield gen_reader_case(rng, maxlen)
         else:
             yield gen_case(rng, maxlen)
 
@@ -628,6 +640,86 @@ def enc_obj(key):
 
 
 OK = Atom("ok")
+
+
+class _Reader(object):
+    """an observer that asks for representations from INSIDE notification callbacks.  It is registered per object and
+    per notification name (the centre serves such an observer after the object's own eviction callback), for the
+    notifications that destroy a representation of that object and for its `*.Changed`; whatever it is given must
+    be what the factory computes from the state the object is in at that moment."""
+
+    def __init__(self, im):
+        self.im = im
+        self.registered = set()
+        self.busy = False
+
+    def names_for(self, c):
+        cls = self.im.cls[c]
+        names = set([cls.changeNotificationName])
+        for name, d in cls.representationFactories.items():
+            dn = d.get("destructiveNotifications") or ()
+            if isinstance(dn, str):
+                dn = (dn,)
+            names.update(dn)
+        return sorted(names)
+
+    def sync(self):
+        for key, obj in self.im.tracked():
+            if id(obj) in self.registered or obj.dispatcher is None:
+                continue
+            c = {"contour": "Contour", "comp": "Component", "glyph": "Glyph", "groups": "Groups"}[key[0]]
+            for n in self.names_for(c):
+                if not obj.hasObserver(self, n):
+                    obj.addObserver(self, "cb", n)
+            self.registered.add(id(obj))
+
+    def cb(self, notification):
+        im = self.im
+        if self.busy or not im.judge:
+            return
+        obj = notification.object
+        key = im.key_of(obj)
+        if key[0] == "other" or obj.dispatcher is None:
+            return
+        c = {"contour": "Contour", "comp": "Component", "glyph": "Glyph", "groups": "Groups"}[key[0]]
+        self.busy = True
+        counting = im.counting
+        im.counting = False
+        try:
+            for (cc, name) in sorted(im.orig):
+                if cc != c:
+                    continue
+                if c == "Contour" and name == "defcon.contour.flattened" and im.quadratic(obj):
+                    continue
+                try:
+                    want = im.fresh(obj, c, name, {})
+                except Exception:
+                    continue
+                try:
+                    got = obj.getRepresentation(name)
+                except Exception as e:
+                    im.bump("reader.get-raised." + type(e).__name__)
+                    continue
+                im.bump("reader.reads")
+                # judged where the notification being delivered is one that destroys this representation (the object's
+                # own callback has run by now); at other notifications of a mutator that is still under way a value
+                # cached earlier may legitimately still be there (a default factory lives until `*.Changed`)
+                d = im.cls[c].representationFactories[name].get("destructiveNotifications") or ()
+                if isinstance(d, str):
+                    d = (d,)
+                d = tuple(d) or (im.cls[c].changeNotificationName,)
+                if notification.name not in d:
+                    continue
+                im.bump("reader.judged")
+                if not same_value(canon_value(got), canon_value(want)):
+                    im.viol.append(dict(clause="C03/stale", signature="C03/stale/%s/in-callback-of-%s" % (name, notification.name),
+                                        step=im.step, op=im.opname, object=list(key),
+                                        cached=repr(canon_value(got))[:300], fresh=repr(canon_value(want))[:300]))
+                    im.judge = False
+                    return
+        finally:
+            im.counting = counting
+            self.busy = False
 
 
 class Impl(object):
@@ -853,10 +945,32 @@ class Impl(object):
                                           cached=repr(canon_value(cached))[:300], fresh=repr(canon_value(want))[:300]))
                     return
 
-    def check_runs(self, site):
-        if not self.judge:
+    def begin_op(self):
+        """what had run / was cached when the operation started: a mutator that first reads a representation of the
+        state it is about to change (Contour.reverse reads the old direction) runs the factory for the OLD state; that
+        run belongs to the interval the change ends, not to the one it begins"""
+        self.interval_before = dict(self.interval)
+        self.cached_before = set()
+        for _, obj in self.tracked():
+            try:
+                for name, kw in obj.representationKeys():
+                    self.cached_before.add((self.key_of(obj), name, repr(sorted(kw.items()))))
+            except Exception:
+                pass
+
+    def check_runs(self, site, mutating=False):
+        if not self.judge or self.no_runs_clause:
             return
         for (key, name, sk), n in self.interval.items():
+            before = self.interval_before.get((key, name, sk), 0)
+            if mutating:
+                # runs inside the mutator: a value that was cached when it started can only run again after the change
+                # evicted it (that run opens the next interval); otherwise one run may belong to the old state
+                n -= before
+                if before == 0 and (key, name, sk) not in self.cached_before and n >= 1:
+                    n -= 1
+                if before > 1:
+                    n = before
             if n > 1 and key[0] != "other":
                 obj = self.obj_of(key)
                 if obj is not None and obj.dispatcher is not None:
@@ -1605,6 +1719,9 @@ def trace(case, judge=True):
     im = Impl(with_model)
     im.judge = judge
     im.install()
+    reader = _Reader(im) if case.get("reader") else None
+    im.no_runs_clause = reader is not None
+    im.keep.append(reader)
     try:
         for line in _prelude():
             im.lines.append(line)
@@ -1619,6 +1736,9 @@ def trace(case, judge=True):
                 # correctContourDirection): 'once between two changes' is judged up to its start only
                 im.check_runs(_site(op))
                 im.interval = {}
+            im.begin_op()
+            if reader is not None:
+                reader.sync()
             try:
                 r = im.do(op)
             except Exception as e:
@@ -1641,7 +1761,7 @@ def trace(case, judge=True):
             prims, res, mutating = r
             site = _site(op)
             # runs inside a mutator count for the interval that ends with it
-            im.check_runs(site)
+            im.check_runs(site, mutating)
             if mutating:
                 im.interval = {}
                 if prims and im.had_cached:
@@ -1663,6 +1783,9 @@ def trace(case, judge=True):
 
 
 Impl.had_cached = False
+Impl.no_runs_clause = False
+Impl.interval_before = {}
+Impl.cached_before = set()
 
 
 def model_lines(case):
@@ -1670,6 +1793,8 @@ def model_lines(case):
 
 
 def run_impl(case):
+    import sys
+    sys.unraisablehook = lambda *a: None      # BaseObject.__del__ at interpreter teardown
     im = trace(case)
     st = dict(im.stats)
     st["len"] = len(case["ops"])
